@@ -1390,6 +1390,21 @@ def tie_C12(ctx):
                         stop_at_blocked=True)
     nb = sum(1 for o in h if "blocked" in o)
     ctx.dist["cases-ending-blocked"] = nb
+    # the same procedure with the crate's optional `log` feature and a logger installed at Trace level: diagnostics must not
+    # read the timer or change any result
+    ok, log_, exe = harness_build(features="jlog", target_dir=os.path.join(HARNESS, "target-jlog"))
+    if ok:
+        saved = ctx.hexe
+        ctx.hexe = exe
+        try:
+            sub = cases[:ctx.scale(120, 1200)]
+            ctx.absolute("JitterRng with the `log` feature and a Trace-level logger installed: results and readings consumed vs model",
+                         sub, stop_at_blocked=True)
+            ctx.dist["config:log-feature+trace-logger"] = len(sub)
+        finally:
+            ctx.hexe = saved
+    else:
+        ctx.notes.append("harness build with rand_jitter/log failed: " + log_[-300:])
 
 # ------------------------------------------------------------------ C13: test_timer
 def probe_script(rng, deltas, start=None, lc=None, times=None):
@@ -2225,10 +2240,16 @@ def tie_C18(ctx):
     ctx.dist["digest:tie"] = 1
     ref = digest(base)
     ctx.notes.append(f"corpus digest in tie profile: {ref[:16]}")
+    configs = configs + [("tie", "jlog")]
     for prof, serde in configs:
-        td = os.path.join(HARNESS, "target" if serde else "target-noserde")
-        ok, log, exe = harness_build(profile=prof, serde=serde, target_dir=td)
-        name = f"{prof}{'+serde' if serde else '-serde'}"
+        if serde == "jlog":
+            # rand_jitter's optional `log` feature, logger installed at Trace level
+            ok, log, exe = harness_build(profile=prof, features="jlog", target_dir=os.path.join(HARNESS, "target-jlog"))
+            name = "tie+log(trace logger)"
+        else:
+            td = os.path.join(HARNESS, "target" if serde else "target-noserde")
+            ok, log, exe = harness_build(profile=prof, serde=serde, target_dir=td)
+            name = f"{prof}{'+serde' if serde else '-serde'}"
         if not ok:
             ctx.notes.append(f"build {name} failed: {log[-400:]}")
             ctx.disagreements.append(dict(family="build " + name, case=["cargo build"], line=0, cmd="build", impl="failed", model="-"))
